@@ -1,27 +1,29 @@
 #!/bin/bash
-# Build the Coq development from clean (full .vo build), offline.
+# Build the Coq development of every integrated property from clean (full .vo build), offline.
 set -e
 cd "$(dirname "$0")"
 rm -rf build; mkdir -p build evidence
 export PYTHONPATH=/repo:/verif/harness PYTHONHASHSEED=0 PYTHONDONTWRITEBYTECODE=1
-if [ -f harness/gen_consts.py ]; then /venv/bin/python harness/gen_consts.py; fi
 cd coq
 find theories \( -name '*.vo' -o -name '*.vok' -o -name '*.vos' -o -name '*.glob' -o -name '.*.aux' \) -delete
 rm -f Makefile Makefile.* .vfiles .vfiles.* .Makefile.d .Makefile.*.d
-vs=$(find theories -name '*.v' | sort)
-coq_makefile -f _CoqProject -o Makefile $vs
-echo "$vs" | sed 's/ /\n/g' > .vfiles.tmp; /venv/bin/python - <<'PY'
-import os
-vs=sorted(l.strip() for l in open('.vfiles.tmp') if l.strip())
-open('.vfiles','w').write('\n'.join(vs)); os.remove('.vfiles.tmp')
-PY
-timeout 3000 make -j16 > ../build/setup_make.log 2>&1 || { tail -50 ../build/setup_make.log; exit 1; }
 cd ..
 /venv/bin/python - <<'PY'
-import sys; sys.path.insert(0,'harness')
+import sys, importlib
+sys.path.insert(0, 'harness')
 import common
-bad = common.source_gate()
+bad = common.source_gate(only_integrated=True)
 if bad:
     print('source gate failed:', bad); sys.exit(1)
-print('setup ok')
+ids = open('harness/integrated.txt').read().split()
+files = []
+for pid in ids:
+    mod = importlib.import_module(pid.lower())
+    prop = [v for v in vars(mod).values() if isinstance(v, type) and issubclass(v, common.Prop) and v is not common.Prop][0]()
+    files += [prop.props_file] + [m.replace('.', '/') + '.v' for m in prop.imports]
+ok, log = common.coq_build(sorted(set(files)), tag='setup', timeout=3000)
+open('build/setup_make.log', 'w').write(log)
+if not ok:
+    print(log[-3000:]); sys.exit(1)
+print('setup ok:', ' '.join(ids))
 PY
